@@ -54,7 +54,7 @@ def _configs(key, cls, thorough):
             out.append((f"Amorph[{name}]", cls, dict(kw, analysis=fn)))
         return out
     names = {f.name for f in dataclasses.fields(cls)} if dataclasses.is_dataclass(cls) else set()
-    if key == "Counter":
+    if cls.__name__ == "Counter":  # by class: the map may hold several keys for one class
         add({"input_value": "positive", "count_value": True})
         add({"input_value": "volume", "count_value": 0})
         return out
@@ -204,7 +204,11 @@ def run(tier, seed, focus=None):
                 framed.append(R.Stream(kind, 3 * n, base + k))
     tf = {"timeframe": "T5", "timeframe_fill": True}
     skipped = []
+    seen_classes = set()
     for key, cls in INDICATOR_MAP.items():
+        if cls in seen_classes:
+            continue  # alias key of a class that was already exercised
+        seen_classes.add(cls)
         try:
             configs = _configs(key, cls, thorough)
         except Exception as e:  # a new class this module cannot introspect
